@@ -162,6 +162,10 @@ static call_t *call_begin(int k, const CELTMode *m, int start, int end, int C)
    g_cur = c;
    return c;
 }
+/* fine_quant / fine_priority are only defined for the coded bands: the rest of the caller's array is never read (and not initialised) */
+static void cpq(int *dst, const int *src, int start, int end) { int i; for (i = 0; i < NBE; i++) dst[i] = (i >= start && i < end) ? src[i] : 0; }
+/* error[] is only written / read for the coded bands of the coded channels */
+static void cpe(int *dst, const celt_glog *src, int C, int start, int end) { int i; for (i = 0; i < 2 * NBE; i++) dst[i] = (i / NBE < C && i % NBE >= start && i % NBE < end) ? (int)src[i] : 0; }
 static void cp(int *dst, const celt_glog *src, int n) { int i; for (i = 0; i < 2 * NBE; i++) dst[i] = i < n ? (int)src[i] : 0; }
 
 void quant_coarse_energy(const CELTMode *m, int start, int end, int effEnd, const celt_glog *eBands, celt_glog *oldEBands, opus_uint32 budget,
@@ -172,27 +176,27 @@ void quant_coarse_energy(const CELTMode *m, int start, int end, int effEnd, cons
    if (c) {
       c->LM = LM; c->effEnd = effEnd; c->budget = (int)budget; c->nbAvail = nbAvailableBytes; c->force = force_intra; c->twopass = two_pass;
       c->lossrate = loss_rate; c->lfe = lfe; c->dI0 = (int)*delayedIntra;
-      cp(c->eb, eBands, C * NBE); cp(c->in, oldEBands, C * NBE); cp(c->ei, error, C * NBE);
+      cp(c->eb, eBands, C * NBE); cp(c->in, oldEBands, C * NBE); cpe(c->ei, error, C, start, end);
    }
    hxr_quant_coarse_energy(m, start, end, effEnd, eBands, oldEBands, budget, error, enc, C, LM, nbAvailableBytes, force_intra, delayedIntra, two_pass, loss_rate, lfe);
-   if (c) { cp(c->out, oldEBands, C * NBE); cp(c->eo, error, C * NBE); c->dI1 = (int)*delayedIntra; c->err = ec_get_error(enc); }
+   if (c) { cp(c->out, oldEBands, C * NBE); cpe(c->eo, error, C, start, end); c->dI1 = (int)*delayedIntra; c->err = ec_get_error(enc); }
    g_cur = NULL;
 }
 void quant_fine_energy(const CELTMode *m, int start, int end, celt_glog *oldEBands, celt_glog *error, int *fine_quant, ec_enc *enc, int C)
 {
    call_t *c = call_begin(1, m, start, end, C);
-   if (c) { cp(c->in, oldEBands, C * NBE); cp(c->ei, error, C * NBE); memcpy(c->fq, fine_quant, sizeof c->fq); c->tell0 = ec_tell(enc); }
+   if (c) { cp(c->in, oldEBands, C * NBE); cpe(c->ei, error, C, start, end); cpq(c->fq, fine_quant, start, end); c->tell0 = ec_tell(enc); }
    hxr_quant_fine_energy(m, start, end, oldEBands, error, fine_quant, enc, C);
-   if (c) { cp(c->out, oldEBands, C * NBE); cp(c->eo, error, C * NBE); c->err = ec_get_error(enc); }
+   if (c) { cp(c->out, oldEBands, C * NBE); cpe(c->eo, error, C, start, end); c->err = ec_get_error(enc); }
    g_cur = NULL;
 }
 void quant_energy_finalise(const CELTMode *m, int start, int end, celt_glog *oldEBands, celt_glog *error, int *fine_quant, int *fine_priority, int bits_left, ec_enc *enc, int C)
 {
    call_t *c = call_begin(2, m, start, end, C);
-   if (c) { cp(c->in, oldEBands, C * NBE); cp(c->ei, error, C * NBE); memcpy(c->fq, fine_quant, sizeof c->fq); memcpy(c->pr, fine_priority, sizeof c->pr);
+   if (c) { cp(c->in, oldEBands, C * NBE); cpe(c->ei, error, C, start, end); cpq(c->fq, fine_quant, start, end); cpq(c->pr, fine_priority, start, end);
             c->left = bits_left; c->tell0 = ec_tell(enc); c->budget = (int)enc->storage * 8; }
    hxr_quant_energy_finalise(m, start, end, oldEBands, error, fine_quant, fine_priority, bits_left, enc, C);
-   if (c) { cp(c->out, oldEBands, C * NBE); cp(c->eo, error, C * NBE); c->err = ec_get_error(enc); }
+   if (c) { cp(c->out, oldEBands, C * NBE); cpe(c->eo, error, C, start, end); c->err = ec_get_error(enc); }
    g_cur = NULL;
 }
 void unquant_coarse_energy(const CELTMode *m, int start, int end, celt_glog *oldEBands, int intra, ec_dec *dec, int C, int LM)
@@ -207,7 +211,7 @@ void unquant_coarse_energy(const CELTMode *m, int start, int end, celt_glog *old
 void unquant_fine_energy(const CELTMode *m, int start, int end, celt_glog *oldEBands, int *fine_quant, ec_dec *dec, int C)
 {
    call_t *c = call_begin(4, m, start, end, C);
-   if (c) { cp(c->in, oldEBands, 2 * NBE); memcpy(c->fq, fine_quant, sizeof c->fq); c->tell0 = ec_tell(dec); }
+   if (c) { cp(c->in, oldEBands, 2 * NBE); cpq(c->fq, fine_quant, start, end); c->tell0 = ec_tell(dec); }
    hxr_unquant_fine_energy(m, start, end, oldEBands, fine_quant, dec, C);
    if (c) { cp(c->out, oldEBands, 2 * NBE); c->err = ec_get_error(dec); }
    g_cur = NULL;
@@ -215,7 +219,7 @@ void unquant_fine_energy(const CELTMode *m, int start, int end, celt_glog *oldEB
 void unquant_energy_finalise(const CELTMode *m, int start, int end, celt_glog *oldEBands, int *fine_quant, int *fine_priority, int bits_left, ec_dec *dec, int C)
 {
    call_t *c = call_begin(5, m, start, end, C);
-   if (c) { cp(c->in, oldEBands, 2 * NBE); memcpy(c->fq, fine_quant, sizeof c->fq); memcpy(c->pr, fine_priority, sizeof c->pr); c->left = bits_left;
+   if (c) { cp(c->in, oldEBands, 2 * NBE); cpq(c->fq, fine_quant, start, end); cpq(c->pr, fine_priority, start, end); c->left = bits_left;
             c->tell0 = ec_tell(dec); c->budget = (int)dec->storage * 8; }
    hxr_unquant_energy_finalise(m, start, end, oldEBands, fine_quant, fine_priority, bits_left, dec, C);
    if (c) { cp(c->out, oldEBands, 2 * NBE); c->err = ec_get_error(dec); }
